@@ -973,6 +973,27 @@ fn check_cluster_windows(problem: &PProblem, tours: &[Value], tol: f64) -> Vec<F
     f
 }
 
+/// Which rules can be judged for a problem: vicinity clustering changes service durations and adds walks, so of the
+/// schedule replay only the rules which do not need the clock of the tour are kept (plus the commute replay and the
+/// window rule written for clusters); the replay around a required break is undefined.
+pub fn applies(f: &Finding, family: &str, problem: &PProblem) -> bool {
+    let clustered = family == "cluster" || problem.clustering.is_some();
+    let cluster_ok = !clustered
+        || f.rule.starts_with("C02:")
+        || f.rule == "C03:statistic-total"
+        || f.rule.starts_with("C03:commute-")
+        || f.rule == "C03:statistic-commuting"
+        || f.rule == "C03:statistic-parking"
+        || [
+            "C01:skills", "C01:group", "C01:compatibility", "C01:capacity", "C01:negative-load", "C01:cluster-time-window", "C01:tour-size",
+            "C01:relation-vehicle", "C01:relation-order", "C01:relation-contiguity", "C01:task-order", "C01:resource", "C01:shift-end",
+            "C01:shift-start", "C01:shift-start-latest", "C01:unreachable-leg",
+        ]
+        .contains(&f.rule.as_str());
+    let reqbreak_ok = family != "reqbreak" || f.rule.starts_with("C02:") || f.rule.starts_with("C01:required-break") || f.rule == "C01:capacity" || f.rule == "C03:required-break-outside-tour";
+    cluster_ok && reqbreak_ok
+}
+
 pub fn in_scope(finding: &Finding, scope: Scope) -> bool {
     match scope {
         Scope::All => true,
